@@ -65,7 +65,7 @@ def private_lean_dir():
     of the lake project so that the project of record (and concurrent checks) is never disturbed."""
     if os.environ.get('VERIF_LEAN_DIR'):
         return os.environ['VERIF_LEAN_DIR']
-    dst = os.path.join(VERIF, '.cache', 'seeded-lean')
+    dst = os.path.join(VERIF, '.cache', 'seeded-lean-%d' % os.getpid())   # one private copy per sweep process
     os.makedirs(dst, exist_ok=True)
     r = sh(['rsync', '-a', '--delete', os.path.join(VERIF, 'lean') + '/', dst + '/'])
     assert r.returncode == 0, r.stdout
@@ -82,8 +82,14 @@ def main():
         r = run_one(n)
         results[n] = r
         print(n, 'DETECTED' if r.get('detected') else 'MISSED', json.dumps(r.get('checks', r.get('error')))[:400])
+    # merge into the file as it is NOW (several sweeps may run side by side)
+    latest = json.load(open(out_path)) if os.path.exists(out_path) else {}
+    latest.update({n: results[n] for n in names})
     with open(out_path, 'w') as f:
-        json.dump(results, f, indent=1, sort_keys=True)
+        json.dump(latest, f, indent=1, sort_keys=True)
+    d = os.environ.get('VERIF_LEAN_DIR', '')
+    if d.startswith(os.path.join(VERIF, '.cache', 'seeded-lean-')):
+        shutil.rmtree(d, ignore_errors=True)
 
 
 if __name__ == '__main__':
